@@ -59,6 +59,20 @@ theorem C15_stays_on_network (n : Net) (hne : ∀ e ∈ n.segs, e.2.cells ≠ []
   · exact absurd h1 (by simp)
   · exact ht.on_network hne x rfl
 
+/-- Termination: with positive segment costs the loop of `walk` ends within
+    `floor(distance / minimum cost) + 1` iterations - the model's fuel is never exhausted. -/
+theorem C15_terminates (n : Net) (hpos : ∀ e ∈ n.segs, 0 < e.2.cost) (c : Cell) (d : Rat)
+    (jump : Bool) : Outcome.diverge ∉ n.walk c d jump ∧ Outcome.diverge ∉ n.walkRelaxed c d jump := by
+  have key : ∀ pref, Outcome.diverge ∉ n.walkG pref c d jump := by
+    intro pref h
+    unfold Net.walkG at h
+    split at h
+    · simp at h
+    · obtain ⟨nd, _, ho⟩ := List.mem_flatMap.mp h
+      exact walkFrom_no_diverge n pref jump c n.minCost (fun e he => minCost_le he) _ nd [] d
+        (lt_walkFuel_mul (minCost_pos hpos) d) ho
+  exact ⟨key true, key false⟩
+
 /-- Cost accounting (walking without snapping). For a network whose segments have at least two
     cells and positive cost, every result of `walk` from a cell with a node is a cell (never an
     exception for `d ≥ 0`, never a read past the end of a segment), obtained by a derivation that
@@ -66,10 +80,9 @@ theorem C15_stays_on_network (n : Net) (hne : ∀ e ∈ n.segs, e.2.cells ≠ []
     first segment whose cost is not exceeded. -/
 theorem C15_cost (n : Net) (hwf : n.WF) (c : Cell) (d : Rat) (hd : 0 ≤ d)
     (hnode : n.hasNodeAt c = true) (o : Outcome) (h : o ∈ n.walk c d false) :
-    o ≠ .diverge → (∃ x, o = .at x) ∧ ∃ nd ∈ n.nodesAt c, Trip n false false c nd [] d o := by
-  intro hdiv
+    (∃ x, o = .at x) ∧ ∃ nd ∈ n.nodesAt c, Trip n false false c nd [] d o := by
   rcases C15_walk_derivation n true c d false o h with h1 | ⟨h1, _⟩ | ⟨nd, hnd, ht⟩
-  · exact absurd h1 hdiv
+  · rw [h1] at h; exact absurd h (C15_terminates n hwf.costPos c d false).1
   · exact absurd h1 (C15_start_with_node n c hnode).2
   · exact ⟨ht.ends_at_cell hwf hd, nd, hnd, ht.relax⟩
 
@@ -118,20 +131,6 @@ theorem C15_prefers_unvisited (n : Net) (node m : NodeId) (visited : List NodeId
     · exact absurd h1 hnodes
     · exact h1
 
-/-- Termination: with positive segment costs the loop of `walk` ends within
-    `floor(distance / minimum cost) + 1` iterations - the model's fuel is never exhausted. -/
-theorem C15_terminates (n : Net) (hpos : ∀ e ∈ n.segs, 0 < e.2.cost) (c : Cell) (d : Rat)
-    (jump : Bool) : Outcome.diverge ∉ n.walk c d jump ∧ Outcome.diverge ∉ n.walkRelaxed c d jump := by
-  have key : ∀ pref, Outcome.diverge ∉ n.walkG pref c d jump := by
-    intro pref h
-    unfold Net.walkG at h
-    split at h
-    · simp at h
-    · obtain ⟨nd, _, ho⟩ := List.mem_flatMap.mp h
-      exact walkFrom_no_diverge n pref jump c n.minCost (fun e he => minCost_le he) _ nd [] d
-        (lt_walkFuel_mul (minCost_pos hpos) d) ho
-  exact ⟨key true, key false⟩
-
 /-- Teleporting ends on a node adjacent to a node of the start cell: the returned cell holds a
     node `m` that is a neighbour of some node `a` of the start cell (`m = a` only if `a` has no
     edge, which cannot happen after `load`). With several steps the result is still a node cell.
@@ -174,6 +173,15 @@ theorem C15_teleport_adjacent (n : Net) (c x : Cell) :
   · intro tele jump d ht h
     subst ht
     exact hadj (by simpa [Net.kernelCall] using h)
+
+/-- The kernel forwards its movement mode: walking kernels call `walk` with the drawn distance AND
+    their snapping flag (defect F12, repaired: the flag used to be dropped), teleporting kernels
+    call `teleport` with one step; eligibility is the presence of a node. Hence all trip theorems
+    hold for `NetworkDispersalKernel::operator()` as well. -/
+theorem C15_kernel_forwards (n : Net) (c : Cell) (d : Rat) (jump : Bool) :
+    n.kernelCall false jump c d = n.walk c d jump ∧
+    n.kernelCall true jump c d = n.teleport c 1 ∧
+    n.isCellEligible c = n.hasNodeAt c := ⟨rfl, rfl, rfl⟩
 
 /-! ## Loading -/
 
